@@ -2117,6 +2117,11 @@ func (t *tScreen) CanDisplay(r rune, checkFallbacks bool) bool {
 		// a cell that holds one is shown as a blank
 		return false
 	}
+	if !utf8.ValidRune(r) || (r >= 0xfdd0 && r <= 0xfdef) || r&0xfffe == 0xfffe {
+		// not a character at all (surrogates, which would be taken
+		// for U+FFFD below, and noncharacters): shown as a blank too
+		return false
+	}
 
 	if enc := t.encoder; enc != nil {
 		nb := make([]byte, 6)
